@@ -341,7 +341,7 @@ def orders(vs, extras, rng):
 
 
 def corpus(rng, tier, n_random, profiles=("poly", "smooth", "smooth", "all"), depths=(2, 3, 4),
-           focus_profile="all", focus_scale=1.0, errors=None, pool_kwargs=None, want=None):
+           focus_profile="all", focus_scale=1.0, errors=None, pool_kwargs=None, want=None, gen_flags=None):
     """Expressions for the differential channels: first the FOCUSED corpus (every reduction /
     leaf kind under every one-node context - constant on either side of each operator, each
     power, each function; in the thorough tier also every pair of stacked contexts), then
@@ -350,6 +350,8 @@ def corpus(rng, tier, n_random, profiles=("poly", "smooth", "smooth", "all"), de
     import gen as _gen
     probe = _gen.Gen(_r.Random(0), profile=focus_profile,
                      **({"pool": _gen.Pool(_r.Random(0), with_params=(focus_profile == "all"), **pool_kwargs)} if pool_kwargs else {}))
+    for k_, v_ in (gen_flags or {}).items():
+        setattr(probe, k_, v_)
     size = probe.focused_size()
     # `want`: only focused items whose label (context(base)) contains one of the given substrings
     # a scale below 1 takes an evenly spread sample of the (base x context) grid, not a prefix of it
@@ -372,6 +374,8 @@ def corpus(rng, tier, n_random, profiles=("poly", "smooth", "smooth", "all"), de
         prof = focus_profile if focused else rng.choice(list(profiles))
         pool = _gen.Pool(r, with_params=(prof == "all"), **pool_kwargs) if pool_kwargs else None
         g = _gen.Gen(r, profile=prof, pool=pool)
+        for k_, v_ in (gen_flags or {}).items():
+            setattr(g, k_, v_)
         try:
             e = g.focused(i) if focused else g.expr(rng.choice(list(depths)))
         except Exception as ex:
@@ -380,3 +384,19 @@ def corpus(rng, tier, n_random, profiles=("poly", "smooth", "smooth", "all"), de
                 errors[k] = errors.get(k, 0) + 1
             continue
         yield g, e
+
+
+def has_numpy_constant(e):
+    """Does the scalar tree hold a Constant whose value is a NumPy scalar / 0-d array (rather than a Python number)?"""
+    from optyx.core.expressions import Constant, BinaryOp, UnaryOp
+    stack = [e]
+    while stack:
+        t = stack.pop()
+        if isinstance(t, Constant):
+            if isinstance(t.value, (np.ndarray, np.generic)) and not isinstance(t.value, (float, int)):
+                return True
+        elif isinstance(t, BinaryOp):
+            stack += [t.left, t.right]
+        elif isinstance(t, UnaryOp):
+            stack.append(t.operand)
+    return False
